@@ -182,6 +182,20 @@ CHECKS = {
              "interpreter. Listed finding: void functions with unsupported parameters are silently skipped.",
         technique="Lean 4 proof (table laws) + translator-regenerated table with decide obligations + exhaustive echo suite",
         ref="DESIGN.md §6 C20"),
+    "C12": dict(
+        text="Lean 4 theorems (CbProps/C12.lean) on an object model (CbModel/Iface.lean: concrete objects, interface "
+             "variables holding (dynamic type, state), an impl table of (interface, type) pairs, impl-block statics per pair): "
+             "a method call through an interface variable runs the impl registered for (declared interface, DYNAMIC type) on "
+             "the receiver's current state; writes through self are visible in the receiver afterwards; re-assignment changes "
+             "which impl runs; a type without impl is rejected; a call that updates the static of one (interface, type) pair "
+             "leaves every other pair's static unchanged; observers and by-value parameters change nothing. Tie: random "
+             "programs over <= 3 interfaces x <= 4 types with 6..30 operations; cbdriver c12 predicts every printed value.",
+        note="The model is a specification-level object model, not a mirror of the interpreter's dispatch code; the tie is "
+             "differential. Methods are called through interface variables and by-value interface parameters only (a direct "
+             "call on the concrete object cannot see impl statics — 'Undefined variable' — and is not generated; interface "
+             "pointers not generated).",
+        technique="Lean 4 proof (laws of a small-step object model) + differential correspondence on generated call sequences",
+        ref="DESIGN.md §6 C12"),
 }
 
 PENDING = {}
